@@ -23,6 +23,12 @@ Real code (run over harness.fakecourier, virtual clock):
                  and environment threads; the composite operations' clock-driven spin loops are not in the LTS, so this
                  family is decided by the independent oracle alone (single owner, no stealing, dead stays dead, monotone,
                  nothing acquired when the operation returns or raises).
+  family 'schedc' (round 6): WorkerPool.run / call_and_wait STEP BY STEP under the scheduler over the manual transport, against
+                 other pools' threads and environment threads: besides the lock / attribute operations above, every clock read of
+                 courier_worker.py, every time.sleep, futures.wait([state]) and the done() polls of courier_worker.wait are yield
+                 points; the composite operations are programs of the product LTS (controller `Ctl` of Model/OwnerEnv.lean: the
+                 spin loops are loops whose exits are clock / environment choices), compared step by step like family 'sched'
+                 (labels, enabled sets, registry, results, final state); max_parallelism in {1, 2}.
 Model: lean/MlModel/Model/Registry.lean, Owner.lean, OwnerEnv.lean; theorems: lean/MlModel/Properties/C20.lean.
 `extra`: exhaustive exploration of all interleavings of small configurations of the Owner LTS in the Lean
 driver (a *test* of the model / theorem hypotheses), the racy orders of F13 / F14 executed by hand on the
@@ -300,6 +306,54 @@ def rand_schedrun(rng):
   return c
 
 
+def rand_schedc(rng):
+  """Composite operations step by step: thread 0 runs `run` / `call_and_wait` (tasks that succeed or raise at the worker);
+  other pool threads acquire / release / call the same workers; the environment pronounces workers dead, revives them,
+  lets the clock run past the 180 s deadlines and delivers (or fails, or never delivers) the replies."""
+  nworkers = rng.choice([1, 1, 2, 2, 3])
+  npools = rng.choice([1, 2, 2])
+  pw = []
+  for _ in range(npools):
+    ws = [w for w in range(nworkers) if rng.random() < 0.8] or [rng.randrange(nworkers)]
+    rng.shuffle(ws)
+    pw.append(ws)
+  p = rng.randrange(npools)
+  mine = []
+  if rng.random() < 0.2:
+    mine.append(dict(op='acquire_all', p=p, ws=list(pw[p]), n=0))
+  for _ in range(rng.choice([1, 1, 2])):
+    mine.append(dict(op=rng.choice(['run', 'run', 'call_and_wait']), p=p, task=rng.choice(['ok', 'ok', 'raise'])))
+  if rng.random() < 0.2:
+    mine.append(dict(op='next_idle', p=p, ws=list(pw[p]), acq=True))
+  threads = [dict(kind='pool', ops=mine)]
+  for q in range(npools):
+    if q != p and rng.random() < 0.8:
+      threads.append(dict(kind='pool', ops=[rand_sched_pool_op(rng, q, pw[q]) for _ in range(rng.randrange(1, 4))]))
+  if rng.random() < 0.25:       # a second driver of the same pool (no oracle claim about exit then; the tie still holds)
+    threads.append(dict(kind='pool', ops=[rng.choice([dict(op='release_all', p=p, ws=[]), dict(op='call', p=p, w=rng.choice(pw[p])),
+                                                      dict(op='idle', p=p)])]))
+  def env_op():
+    r = rng.random()
+    w = rng.randrange(nworkers)
+    if r < 0.15:
+      return dict(op='die', w=w)
+    if r < 0.30:
+      return dict(op='revive', w=w)
+    if r < 0.38:
+      return dict(op='send', w=w, alive=rng.random() < 0.5)
+    if r < 0.80:
+      return dict(op='deliver', k=rng.randrange(3), fail=rng.random() < 0.2)
+    return dict(op='tick', d=rng.choice([0, 1, 31, 60, 99, 100, 200]))
+  for _ in range(rng.choice([1, 1, 2])):
+    threads.append(dict(kind='env', ops=[env_op() for _ in range(rng.randrange(1, 6))]))
+  if rng.random() < 0.7:        # a transport that answers (late)
+    threads.append(dict(kind='env', ops=[dict(op='deliver', k=0, fail=False) for _ in range(rng.randrange(1, 5))]))
+  return dict(fam='schedc', nworkers=nworkers, pw=pw, thr=rng.choice([100, 100, 180]), now=1000,
+              mp=[rng.choice([1, 1, 2]) for _ in range(nworkers)],
+              reg0=[rng.choice(['alive', 'alive', 'alive', 'dead', 'absent']) for _ in range(nworkers)],
+              threads=threads, sched=sched_spec(rng))
+
+
 def gen_cases(ctx):
   import os
   fams = os.environ.get('VERIF_C20_FAMILIES')          # development aid: restrict the families (default: all)
@@ -347,6 +401,9 @@ def _gen_cases(ctx):
       yield live_case(1000, [dict(op='shutdown', i=0), dict(op='deliver', k=0, fail=False)] + [lal[i] for i in seq] +
                       [dict(op='call', i=0), dict(op='deliver', k=0, fail=False), dict(op='deliver', k=0, fail=False),
                        dict(op='reg', a=0, t=990), dict(op='alive', i=0)])
+  # --- schedc (round 6): run / call_and_wait step by step under the scheduler
+  for _ in range(700 if quick else 14000):
+    yield rand_schedc(rng)
 
 
 # ----------------------------------------------------------------------------- real code
@@ -354,6 +411,8 @@ def _gen_cases(ctx):
 def run_impl(case):
   if case['fam'] in ('sched', 'schedrun'):
     return lo.run_real(case)
+  if case['fam'] == 'schedc':
+    return lo.run_real(case, max_steps=1500)
   return run_live(case) if case['fam'] == 'live' else run_own(case)
 
 
@@ -554,7 +613,7 @@ def run_own(case):
 def model_requests_obs(case, obs):
   if case['fam'] == 'schedrun':      # oracle-only family: the composite operations are not modelled step by step
     return []
-  if case['fam'] == 'sched':
+  if case['fam'] in ('sched', 'schedc'):
     return [lo.model_request(case, obs['choices'])]
   return model_requests(case)
 
@@ -613,7 +672,11 @@ PROGRAM_POINTS = [
     'rWr', 'rExit', 'vRdLocked', 'vRdPool', 'lRdLocked', 'lRdPool', 'cEnter', 'cExit', 'iEnter', 'i.foldAcq', 'i.foldRel',
     'i.getAcq', 'i.getRel', 'iExit', 'kEnter', 'kExit', 'e.die', 'e.die.acq', 'e.die.rel', 'e.revive', 'e.revive.acq',
     'e.revive.rel', 'e.send', 'e.tick', 'e.deliver.empty', 'e.deliver.fail', 'e.deliver.plain', 'e.deliver.ping',
-    'e.deliver.hb', 'e.hb.register', 'e.hb.unregister', 'e.hb.rel']
+    'e.deliver.hb', 'e.hb.register', 'e.hb.unregister', 'e.hb.rel',
+    # round 6: program points of the composite operations (controller of Model/OwnerEnv.lean)
+    'c.start.run', 'c.start.caw', 'c.rTick', 'c.rCond', 'c.rCond.err', 'c.rAlive.ret', 'c.rAlive.sleep', 'c.rNext',
+    'c.rClockN.timeout', 'c.rClockN.submit', 'c.rClockN.again', 'c.rSub.wait', 'c.rSub.sleepAlive', 'c.rSub.disconnected',
+    'c.rSub.sleepCap', 'c.cAcq', 'c.cWait', 'r.strAcq', 'r.strRel', 'e.deliver.taskRaise']
 _SCHEDULES = set()
 
 
@@ -622,10 +685,17 @@ def model_obs(case, resps):
     _cover('schedrun', 'runs')
     return dict(skip=True)
   r = resps[0]
-  if case['fam'] == 'sched':
+  if case['fam'] in ('sched', 'schedc'):
     m = lo.model_obs(case, r)
     for pp in m['pps']:
       _cover('sched_program_points', pp)
+    if case['fam'] == 'schedc':
+      _cover('schedc', 'schedules replayed')
+      _cover('schedc', 'steps', len(m['pps']))
+      for t, th in enumerate(case['threads']):
+        for o, v in zip(th['ops'], m['results'][t]):
+          if o['op'] in lo.COMPOSITE_OPS:
+            _cover('schedc_outcomes', f"{o['op']}/{v}")
     _cover('sched_schedules', 'replayed')
     _cover('sched_schedules', 'steps', len(m['pps']))
     _cover('sched_schedule_kind', case['sched']['kind'])
@@ -692,7 +762,7 @@ def compare(impl, model):
 # ----------------------------------------------------------------------------- oracle (the property itself)
 
 def oracle(case, obs):
-  if case['fam'] in ('sched', 'schedrun'):
+  if case['fam'] in ('sched', 'schedrun', 'schedc'):
     return oracle_sched(case, obs)
   return oracle_live(case, obs) if case['fam'] == 'live' else oracle_own(case, obs)
 
@@ -700,7 +770,11 @@ def oracle(case, obs):
 def oracle_sched(case, obs):
   """The property, on the public observations taken between every two steps of the real run (written from the
   English statement; uses the case, which thread moved and what the transport delivered — not the model)."""
-  if obs['outcome'] not in ('done', 'cut'):
+  waiting_for_reply = (case['fam'] == 'schedc' and obs['outcome'] == 'deadlock' and obs.get('blocked') and
+                       all(b[2] in ('fwait', 'wdone') for b in obs['blocked']))
+  # (schedc, manual transport: a composite operation whose call the environment never answers waits for ever — it has
+  #  not returned, the exit clause does not apply; every step up to that point is still checked below)
+  if obs['outcome'] not in ('done', 'cut') and not waiting_for_reply:
     return f"the run did not finish: {obs['outcome']} {obs.get('err')} blocked={obs.get('blocked')}"
   if obs['excs']:
     return f"a thread ended with an exception: {obs['excs']}"
@@ -905,7 +979,7 @@ def oracle_own(case, obs):
 
 
 def nontrivial(case, obs):
-  if case['fam'] in ('sched', 'schedrun'):
+  if case['fam'] in ('sched', 'schedrun', 'schedc'):
     ch = obs['choices']
     return sum(1 for a, b in zip(ch, ch[1:]) if a != b) >= 8
   if case['fam'] == 'live':
@@ -931,11 +1005,14 @@ def finding(case, what):
 
 
 def neighbours(case, rng):
-  if case['fam'] == 'schedrun':
+  if case['fam'] in ('schedrun', 'schedc'):
     for k in range(300):
       c = copy.deepcopy(case)
       c['sched'] = sched_spec(rng)
       yield c
+    if case['fam'] == 'schedc':
+      for _ in range(200):
+        yield rand_schedc(rng)
     return
   if case['fam'] == 'sched':
     for k in range(300):
@@ -983,7 +1060,7 @@ def shrink_sched(case, fails):
 
 
 def shrink(case, fails):
-  if case['fam'] in ('sched', 'schedrun'):
+  if case['fam'] in ('sched', 'schedrun', 'schedc'):
     return shrink_sched(case, fails)
   cur = case
   key = 'events' if case['fam'] == 'live' else 'ops'
